@@ -241,8 +241,8 @@ func H_C03_uint64Limit(k int, pos int) {
 
 // a version value reports itself valid exactly when its text parses back to an equal value
 //
-//verif:harness C03 quick lp=0..3 lb=0..2
-//verif:harness C03 thorough lp=4..5 lb=0..3
+//verif:harness C03 quick lp=0..4 lb=0..2
+//verif:harness C03 thorough lp=5..6 lb=0..3
 func H_C03_validIffRoundtrip(lp int, lb int) {
 	v := Ver{Major: vU64("major"), Minor: vU64("minor"), Patch: vU64("patch"), PreRelease: vStr("pre", lp), Build: vStr("build", lb)}
 	vAssume(v.Major < 100000 && v.Minor < 10 && v.Patch < 100)
@@ -252,4 +252,26 @@ func H_C03_validIffRoundtrip(lp int, lb int) {
 	vReach("valid", valid)
 	vReach("invalid", !valid)
 	vAssert("valid-iff-roundtrip", valid == (err == nil && back == v))
+	// Valid against the grammar itself (the parser and Valid share their patterns, so the link above alone
+	// cannot see a pattern that drifts in both)
+	preOK := lp == 0 || (asciiOnly(v.PreRelease) && refSplitPre(v.PreRelease).valid)
+	buildOK := lb == 0 || refBuildValid(v.Build)
+	vAssert("valid-iff-grammar", valid == (preOK && buildOK))
+}
+
+// refBuildValid: dot separated non-empty identifiers over [0-9A-Za-z-]
+func refBuildValid(s string) bool {
+	ok := len(s) > 0
+	l := 0
+	for i := 0; i < len(s); i++ {
+		c := s[i]
+		if c == '.' {
+			ok = ok && l > 0
+			l = 0
+			continue
+		}
+		ok = ok && isIdentChar(c)
+		l++
+	}
+	return ok && l > 0
 }
